@@ -626,5 +626,165 @@ theorem relex_step_fin (hrel : RelexOk env.tbl L TT S = true)
         cases G.L0 == (headKey G.H).2 <;> rfl
       rw [this, r4]
 
+
+/-! ### the whole head, silently -/
+
+/-- `n` state-function calls that signal nothing -/
+inductive SilentSteps (env : Env κ) (inp : Bytes) : Nat → M κ → M κ → Prop
+  | zero (m : M κ) : SilentSteps env inp 0 m m
+  | succ {n : Nat} {m m' : M κ} : (stateFn env inp m).2 = none → SilentSteps env inp n (stateFn env inp m).1 m' →
+      SilentSteps env inp (n + 1) m m'
+
+theorem SilentSteps.trans {n k : Nat} {a b c : M κ} (h1 : SilentSteps env inp n a b) (h2 : SilentSteps env inp k b c) :
+    SilentSteps env inp (n + k) a c := by
+  induction h1 with
+  | zero m => simpa using h2
+  | @succ n' _ _ hs _ ih =>
+    have := SilentSteps.succ hs (ih h2)
+    rw [show n' + 1 + k = n' + k + 1 by omega]
+    exact this
+
+/-- the loop follows silent steps -/
+theorem runLoop_silent {n : Nat} {m m' : M κ} (h : SilentSteps env inp n m m') (fuel : Nat) :
+    runLoop env inp (n + fuel) m = runLoop env inp fuel m' := by
+  induction h with
+  | zero m => simp
+  | @succ n' _ _ hs _ ih =>
+    rw [show n' + 1 + fuel = (n' + fuel) + 1 by omega]
+    simp only [runLoop, hs]
+    exact ih
+
+/-- from the `<` to the terminator: `|H| - |w|` more silent calls, the context untouched -/
+theorem relex_head_run (hhead : HeadOk env.tbl L = true) (hrel : RelexOk env.tbl L TT S = true)
+    {G : RG} (hG : RGOk env.tbl L S G) (x : Ctx κ) (k : Nat) :
+    ∀ (c : Common) (l : LexRegs) (w : Bytes), RelexHead env.tbl L G inp c l w → w.length + k = G.H.length →
+      ∃ c' l', SilentSteps env inp k (⟨c, .lexer l, x⟩ : M κ) (⟨c', .lexer l', x⟩ : M κ) ∧
+        RelexHead env.tbl L G inp c' l' G.H ∧ l'.lexemeStart = l.lexemeStart ∧ l'.fd = l.fd ∧ c'.isLast = c.isLast := by
+  induction k with
+  | zero =>
+    intro c l w h hl
+    have : w = G.H := prefix_eq_of_length h.wpre (by omega)
+    subst this
+    exact ⟨c, l, .zero _, h, rfl, rfl, rfl⟩
+  | succ k ih =>
+    intro c l w h hl
+    by_cases hw : w = []
+    · subst hw
+      obtain ⟨c', hs, hh, hlast⟩ := relex_step0 (x := x) hhead hrel hG h
+      obtain ⟨c2, l2, s2, h2, e1, e2, e3⟩ := ih c' l [60] hh (by simp at hl ⊢; omega)
+      exact ⟨c2, l2, .succ (by rw [hs]) (by rw [hs]; exact s2), h2, e1, e2, by rw [e3, hlast]⟩
+    · obtain ⟨c', l', b, hs, hh, e1, e2, e3⟩ := relex_step_keep (x := x) hhead hrel hG h hw (by omega)
+      obtain ⟨c2, l2, s2, h2, f1, f2, f3⟩ := ih c' l' (w ++ [b]) hh (by simp; omega)
+      exact ⟨c2, l2, .succ (by rw [hs]) (by rw [hs]; exact s2), h2, by rw [f1, e1], by rw [f2, e2], by rw [f3, e3]⟩
+
+/-! ### between `finish_tag_name` and `emit_tag` -/
+
+/-- kind, name hash and name range of a tag token -/
+def tagId (t : TagOutline) : (Bool × Nat) × Range := (tagKey t, t.name)
+
+theorem updTagHash_never (t : TagOutline) : True := trivial
+
+/-- actions allowed between `finish_tag_name` and `emit_tag` (`phAct · inTag = some inTag`) do not touch
+kind, hash and name of the tag token, nor the feedback directive, nor the simulator -/
+theorem lexAct_inTag (a : ActName) (ha : phAct a .inTag = some .inTag) (c : Common) (l : LexRegs) (x : Ctx κ) :
+    ∃ c' l' x', (lexAct env a inp c l x).1 = ⟨c', .lexer l', x'⟩ ∧ l'.curTag.map tagId = l.curTag.map tagId ∧
+      l'.fd = l.fd ∧ x'.sim = x.sim := by
+  have hnt : ∀ c l x o e, ∃ l' x', (lexEmitNonTag env inp c l x o e).1 = ⟨c, .lexer l', x'⟩ ∧ l'.curTag = l.curTag ∧
+      l'.fd = l.fd ∧ x'.sim = x.sim := by
+    intro c l x o e
+    unfold lexEmitNonTag
+    dsimp only
+    split <;> exact ⟨_, _, rfl, rfl, rfl, rfl⟩
+  have htx : ∀ c l x, ∃ l' x', (lexEmitText env inp c l x).1 = ⟨c, .lexer l', x'⟩ ∧ l'.curTag = l.curTag ∧
+      l'.fd = l.fd ∧ x'.sim = x.sim := by
+    intro c l x
+    unfold lexEmitText
+    split
+    · exact hnt _ _ _ _ _
+    · exact ⟨_, _, rfl, rfl, rfl, rfl⟩
+  have hand : ∀ (r : M κ × Option Signal) c l x, r.1 = ⟨c, .lexer l, x⟩ →
+      ∃ l' x', (andThen r (lexEmitEof env inp)).1 = ⟨c, .lexer l', x'⟩ ∧ l'.curTag = l.curTag ∧ l'.fd = l.fd ∧ x'.sim = x.sim := by
+    intro r c l x hr
+    unfold andThen
+    split
+    · exact ⟨l, x, hr, rfl, rfl, rfl⟩
+    · rw [hr]
+      exact hnt _ _ _ _ _
+  cases a <;> simp only [phAct, Option.some.injEq, reduceCtorEq] at ha <;> simp only [lexAct]
+  case emitText => obtain ⟨l', x', h1, h2, h3, h4⟩ := htx c l x; exact ⟨c, l', x', h1, by rw [h2], h3, h4⟩
+  case emitTextAndEof =>
+    obtain ⟨l1, x1, h1, h2, h3, h4⟩ := htx c l x
+    obtain ⟨l', x', g1, g2, g3, g4⟩ := hand _ c l1 x1 h1
+    exact ⟨c, l', x', g1, by rw [g2, h2], by rw [g3, h3], by rw [g4, h4]⟩
+  case emitCurrentToken => obtain ⟨l', x', h1, h2, h3, h4⟩ := hnt c { l with curNonTag := none } x l.curNonTag (c.pos + 1); exact ⟨c, l', x', h1, by rw [h2], h3, h4⟩
+  case emitCurrentTokenAndEof =>
+    obtain ⟨l1, x1, h1, h2, h3, h4⟩ := hnt c { l with curNonTag := none } x l.curNonTag c.pos
+    obtain ⟨l', x', g1, g2, g3, g4⟩ := hand _ c l1 x1 h1
+    exact ⟨c, l', x', g1, by rw [g2, h2], by rw [g3, h3], by rw [g4, h4]⟩
+  case emitRawWithoutToken => obtain ⟨l', x', h1, h2, h3, h4⟩ := hnt c l x none (c.pos + 1); exact ⟨c, l', x', h1, by rw [h2], h3, h4⟩
+  case emitRawWithoutTokenAndEof =>
+    obtain ⟨l1, x1, h1, h2, h3, h4⟩ := hnt c l x none c.pos
+    obtain ⟨l', x', g1, g2, g3, g4⟩ := hand _ c l1 x1 h1
+    exact ⟨c, l', x', g1, by rw [g2, h2], by rw [g3, h3], by rw [g4, h4]⟩
+  case markAsSelfClosing =>
+    split
+    · rename_i n h ns as sc heq
+      exact ⟨_, _, _, rfl, by simp [heq, tagId, tagKey, TagOutline.name], rfl, rfl⟩
+    · exact ⟨_, _, _, rfl, rfl, rfl, rfl⟩
+  case finishAttr =>
+    split
+    · split
+      · rename_i n h ns as sc heq
+        exact ⟨_, _, _, rfl, by simp [heq, tagId, tagKey, TagOutline.name], rfl, rfl⟩
+      · exact ⟨_, _, _, rfl, rfl, rfl, rfl⟩
+    · exact ⟨_, _, _, rfl, rfl, rfl, rfl⟩
+  all_goals (first
+    | exact ⟨_, _, _, rfl, rfl, rfl, rfl⟩
+    | (split <;> exact ⟨_, _, _, rfl, rfl, rfl, rfl⟩))
+
+/-- **`emit_tag`**: either the tag is refused (simulator / callback error) and the sink is not called, or
+`handle_tag` is called once with a lexeme that starts at `lexeme_start` and whose outline has the
+token's kind, hash and name -/
+theorem lexEmitTag_outcome (c : Common) (l : LexRegs) (x : Ctx κ) (tok : TagOutline) (hct : l.curTag = some tok) :
+    (∃ e, (lexEmitTag env inp c l x).2 = some (.err e) ∧ (lexEmitTag env inp c l x).1.x.sink = x.sink) ∨
+    (∃ c2 sim2 tok', tagId tok' = tagId tok ∧
+      lexEmitTag env inp c l x = lexEmitTagLexeme env inp c2 { l with curTag := none, fd := .none } x sim2 tok' (c.pos + 1)) := by
+  unfold lexEmitTag
+  rw [hct]
+  dsimp only
+  split
+  · left; exact ⟨_, rfl, rfl⟩
+  · rename_i sf _
+    split
+    · left; exact ⟨_, rfl, rfl⟩
+    · rename_i cs _
+      right
+      refine ⟨_, _, _, ?_, rfl⟩
+      cases tok <;> simp [lexStampTag, tagId, tagKey, TagOutline.name]
+
+theorem lexEmitTagLexeme_call (c : Common) (l : LexRegs) (x : Ctx κ) (sim : Sim) (tok : TagOutline) (e : Nat) :
+    (lexEmitTagLexeme env inp c l x sim tok e).1.x.sink =
+      (env.ops.handleTag inp ⟨x.prevConsumed, ⟨l.lexemeStart, e⟩, tok⟩ x.sink).1 := by
+  unfold lexEmitTagLexeme
+  dsimp only
+  split <;> rfl
+
+
+/-! ### the restart -/
+
+/-- the lexer loaded from the scanner's bookmark stands on the `<` of the hinted tag, in the head
+phase with nothing consumed -/
+theorem relex_start {Pend : κ → Bool} {m' : M κ} {bm : Bookmark} (hd : HeadDone env L S Pend inp m' bm)
+    (cl : Common) (l : LexRegs) (h1 : cl.state = env.tbl.textState bm.textType) (h2 : cl.nextPos = bm.pos)
+    (h3 : l.lexemeStart = bm.pos) (h4 : cl.lastStartTagNameHash = bm.lastStartTagNameHash) :
+    ∃ G : RG, RGOk env.tbl L S G ∧ RelexHead env.tbl L G inp cl l [] ∧ G.L0 = bm.lastStartTagNameHash ∧
+      (Pend m'.x.sink = true → headKind G.H = true) ∧
+      (∀ k, bm.fd = .applyUnhandled (.requestLexeme k) →
+        ∃ sim0, feedbackOf env.cfg sim0 (headKey G.H) = .ok (m'.x.sim, .requestLexeme k)) := by
+  obtain ⟨H, term, s1', sfin, a1, a2, a3, a4, a5, a6, a7, a8⟩ := hd.ex
+  refine ⟨⟨H, term, s1', sfin, bm.lastStartTagNameHash⟩, ⟨a1, a4, a5, a6⟩, ?_, rfl, a7, a8⟩
+  exact ⟨h4, by rw [h3]; exact a2, List.nil_prefix, by simp [h3, h2], fun _ => by rw [h1]; exact a3,
+    fun hn => absurd rfl hn⟩
+
 end
 end LolHtml.Model
